@@ -257,7 +257,9 @@ def gen_c03(status):
     a_inherits = _own(addr, '__eq__') is None and _own(addr, '__hash__') is None
     status['AddressType inherits StringType.__eq__'] = (a_inherits, '')
     fv = find_func(addr, 'from_value')
-    strips = "ifvalue.endswith('%default'):\nvalue=value.split('%')[0]" in _body(fv)
+    # only the exact entrypoint name `default` is dropped (fix C10-4); the pinned `endswith('%default')` + `split('%')[0]` also cut
+    # `addr%x%default` down to `addr` and is not accepted any more
+    strips = "address,_,entrypoint=value.partition('%');ifentrypoint=='default':\nvalue=address" in _body(fv)
     status["AddressType.from_value strips '%default'"] = (strips, '')
     emit_shape('addrLtShape', '`AddressType.__lt__`: `kindThenSplit` (kind rank, then (address, entrypoint or default)), `kindThenText`, or the pinned `pkhBeforeKtThenText`',
                addr_shape if (a_inherits and strips) else None)
